@@ -30,6 +30,7 @@ import (
 type fault struct {
 	At   int    `json:"at"`
 	Kind string `json:"kind"`
+	K2   string `json:"k2"` // a second fault at request At+1 ("none": no)
 }
 
 type mevent struct {
@@ -158,10 +159,19 @@ func replay(b *behaviour, e *env, variant int) (key, detail string, at int, obs 
 		}
 		e.proxy.OnCancel = cancel
 		e.proxy.Plan = func(seq int, path string) *chain.Fault {
-			if f == nil || seq != f.At {
+			if f == nil {
 				return nil
 			}
-			if f.Kind == "hookfail" {
+			kind := ""
+			switch {
+			case seq == f.At:
+				kind = f.Kind
+			case seq == f.At+1 && f.K2 != "" && f.K2 != "none":
+				kind = f.K2
+			default:
+				return nil
+			}
+			if kind == "hookfail" {
 				// the hook of the block requested now will fail the sync
 				for k := 1; k <= n; k++ {
 					if len(path) > 10 && path[len(path)-len(ch.Cids[k].String()):] == ch.Cids[k].String() {
@@ -173,7 +183,7 @@ func replay(b *behaviour, e *env, variant int) (key, detail string, at int, obs 
 				return nil
 			}
 			arg := variant*7919 + f.At*31
-			if f.Kind == "other" {
+			if kind == "other" {
 				// another valid block of the chain (never the requested one), including the one the walker wants next
 				req := 0
 				for k := 1; k <= n; k++ {
@@ -186,7 +196,7 @@ func replay(b *behaviour, e *env, variant int) (key, detail string, at int, obs 
 				}
 				arg = (req-1+1+variant%(n-1))%n + 1
 			}
-			return &chain.Fault{Kind: f.Kind, Arg: arg}
+			return &chain.Fault{Kind: kind, Arg: arg}
 		}
 		ob := observedSync{}
 		if b.Cfg.Trigger == "explicit" {
